@@ -284,8 +284,8 @@ impl<T> Pool<T> {
         match self.inner.size_semaphore.acquire().await {
             Ok(permit) => {
                 permit.forget();
-                self._add(object);
-                Ok(())
+                self._add(object)
+                    .map_err(|object| (object, PoolError::Closed))
             }
             Err(_) => Err((object, PoolError::Closed)),
         }
@@ -302,8 +302,8 @@ impl<T> Pool<T> {
         match self.inner.size_semaphore.try_acquire() {
             Ok(permit) => {
                 permit.forget();
-                self._add(object);
-                Ok(())
+                self._add(object)
+                    .map_err(|object| (object, PoolError::Closed))
             }
             Err(e) => Err(match e {
                 TryAcquireError::NoPermits => (object, PoolError::Timeout),
@@ -317,14 +317,24 @@ impl<T> Pool<T> {
     /// Prior calling this it must be guaranteed that `size` doesn't exceed
     /// `max_size`. In the methods `add` and `try_add` this is ensured by using
     /// the `size_semaphore`.
-    fn _add(&self, object: T) {
-        let _ = self.inner.size.fetch_add(1, Ordering::Relaxed);
+    ///
+    /// The `object` is handed back if the [`Pool`] has been closed in the
+    /// meantime.
+    fn _add(&self, object: T) -> Result<(), T> {
         {
             let mut queue = self.inner.queue.lock().unwrap();
+            // `close()` clears the queue (under this lock) after it has closed
+            // the semaphores. An object pushed after that would stay in the
+            // closed pool forever.
+            if self.inner.is_closed() {
+                return Err(object);
+            }
+            let _ = self.inner.size.fetch_add(1, Ordering::Relaxed);
             queue.push(object);
         }
         let _ = self.inner.available.fetch_add(1, Ordering::Relaxed);
         self.inner.semaphore.add_permits(1);
+        Ok(())
     }
 
     /// Removes an [`Object`] from this [`Pool`].
